@@ -41,6 +41,8 @@ def main():
                 if op.get('how') == 'np':               # the index as numpy integer
                     import numpy as np
                     rep = {'val': ds_[np.int64(op['i'])]}
+                elif op.get('how') == 'neg':            # the same position counted from the end
+                    rep = {'val': ds_[op['i'] - n]}
                 elif op.get('how') == 'slice':          # through a slice (which indexes with numpy integers)
                     rep = {'val': list(ds_[op['i']:op['i'] + 1])[0]}
                 else:
